@@ -8,7 +8,7 @@ ToSet(s) == {s[i] : i \in 1..Len(s)}
 QOK(j, q) == j.nf = q.nf /\ j.sp = q.sp /\ j.rp = q.rp /\ ToSet(j.fl) = q.fl
 ResetA(ev) ==
   LET g == [main |-> ev.main, isr |-> ev.isr, eqd |-> ev.eqdepth, period |-> ev.period, sleeper |-> (ev.sleeper = 1),
-            eqstart |-> ev.eqstart, aqstart |-> ev.aqstart] IN
+            eqstart |-> ev.eqstart, aqstart |-> ev.aqstart, srun |-> (ev.srun = 1)] IN
   /\ cfg' = g /\ m' = Start(g).m /\ aq' = Start(g).aq /\ eq' = Start(g).eq /\ isr' = Start(g).isr
   /\ taint' = {} /\ stack' = <<>> /\ acc' = {} /\ claimed' = <<>> /\ sentOk' = {} /\ seen' = <<>>
   /\ obs' = [c |-> -1, op |-> "", var |-> "", calls |-> <<>>]
